@@ -77,7 +77,7 @@ def check(ctx):
     if r.ok:
         raise core.InfraError("model self-test failed: the notify-after-unlock order is not rejected")
     # 2. real threads, recorded at the hook points, judged by the trace specification
-    n = 1500 if ctx.thorough else 300
+    n = 12000 if ctx.thorough else 300
     script = []
     for i, p in enumerate(programs(ctx.rng, n)):
         reps = 3
@@ -90,7 +90,7 @@ def check(ctx):
     ctx.report(bad)
     # 3. the same programs under ThreadSanitizer (no logging: the log lock would hide races)
     ts = []
-    for i, p in enumerate(programs(ctx.rng, 400 if ctx.thorough else 80)):
+    for i, p in enumerate(programs(ctx.rng, 2500 if ctx.thorough else 80)):
         ts += p + ["GO %d race 60" % ctx.rng.randrange(1, 1 << 30)]
     t2 = ctx.drive(drv_tsan, ts, "sync_tsan", timeout=900, env={"VERIF_OP_TIMEOUT": "0"}, par=8)
     bad = ctx.judge("SysSyncTrace", [t2], label="SysSyncTsan")
